@@ -146,6 +146,16 @@ def run(E: Engine, rep: Report, tier: str) -> dict:
         if e.kind == "call" and any(c.innermost().short == "BaseDevice._validate_atom_distance" for c, _m in e.callees):
             dnf = ab.enclosing_conditions(e.node)
             rep.check(dnf == [[]], "DISPATCH", "_validate_coords|distance-check-unconditional", "every coordinate set is checked for minimum distance", f"the distance check became conditional: {[' AND '.join(l.show() for l in c) for c in dnf]}", E.where(vc, e.node))
+    # the atoms of every register are validated (number, distance, radius), whether or not it comes from a layout:
+    # the trap checks imply distance and radius but not the maximum number of atoms
+    from .symutil import arg as _argd, mentions as _ment
+
+    atom_calls = [l for l in _S(E, vr).calls("_validate_coords") if (k := _argd(l, 1, "kind")) is None or k == ("const", "atoms")]
+    if not atom_calls:
+        atom_calls = [l for l in _S(E, vr).log if l.kind == "call" and l.fn != vr.name and l.value[1][0] == "attr" and l.value[1][2] == "_validate_atom_number"]
+    free = [l for l in atom_calls if not any(_ment(x, "layout", "_layout") for x in _sym.conj_of(l.cond))]
+    rep.check(bool(free), "DISPATCH", "validate_register|atoms-validated-with-or-without-layout", "the atom coordinates are validated on a path that does not depend on register.layout",
+              f"validate_register validates the atoms only under {[_sh(l.cond, 80) for l in atom_calls]}: for the other registers the maximum number of atoms is never checked (the layout checks bound the traps and the filling, not the atom count), so a register the device must refuse is accepted", E.where(vr, atom_calls[0].node if atom_calls else None))
     # Sequence.__init__ validates the register / layout
     init = E.method("pulser.sequence.sequence.Sequence", "__init__")
     callees = reach(init)
@@ -184,6 +194,41 @@ def run(E: Engine, rep: Report, tier: str) -> dict:
     rep.check(it0 is not None and _has(it0, "max(Q_opt, " + MT + ")") is not None, "CLOSURE", "generate_trap_coordinates|target>=min_traps", "target_traps = max(optimal, min_traps)", "the target number of traps can fall below the minimum", E.where(gen))
     short = any(l.kind == "raise" and any(_is(x, "len(Q_t) < " + MT) is not None for x in _sym.conj_of(l.cond)) for l in Sg_.log)
     rep.check(short, "CLOSURE", "generate_trap_coordinates|fails-if-too-few-traps", "raises when fewer than min_traps sites were found", "generate_trap_coordinates can return fewer traps than the minimum", E.where(gen))
+    # a placed trap leaves the candidate region: its distance to itself is 0, so the keep-test `dist > min_trap_dist`
+    # must be strict for a device whose minimum distance is 0 (otherwise the same site is selected again -> duplicate traps)
+    n_keep = 0
+
+    def _keep_tests(t, pos=True):
+        nonlocal n_keep
+        if not isinstance(t, tuple) or not t:
+            return
+        if t[0] == "not" or (t[0] == "bin" and t[1] == "Invert"):
+            _keep_tests(t[1] if t[0] == "not" else t[2], not pos)
+            return
+        if t[0] == "cmp" and len(t) == 4:
+            d, m, op = t[2], t[3], t[1]
+            if _mentions(d, "min_trap_dist") and _mentions(m, "cdist"):
+                d, m, op = m, d, {"Lt": "Gt", "LtE": "GtE", "Gt": "Lt", "GtE": "LtE"}.get(op, op)
+            if _mentions(d, "cdist") and m == ("name", "min_trap_dist") and op in ("Gt", "GtE", "Lt", "LtE"):
+                if not pos:
+                    op = {"Gt": "LtE", "GtE": "Lt", "Lt": "GtE", "LtE": "Gt"}[op]
+                n_keep += 1
+                rep.check(op in ("Gt", "LtE"), "CLOSURE", f"generate_trap_coordinates|keep-test-strict|{n_keep}", "candidate sites are kept iff dist > min_trap_dist (strict)",
+                          f"candidate sites are tested with `{_sh(t, 100)}`: a site at distance exactly min_trap_dist is kept, so with min_trap_dist == 0 (a valid device) the site just selected (distance 0 to itself) stays a candidate, is selected again, and the generated layout has duplicate traps", E.where(gen))
+        for x in t:
+            if isinstance(x, tuple):
+                _keep_tests(x, pos)
+
+    # only maximal terms: the region mask at the loop and at the final use
+    for l in Sg_.log:
+        if l.kind in ("aug", "assign", "store") and l.value is not None:
+            _keep_tests(l.value)
+    if n_keep == 0:
+        reg = [l for l in Sg_.log if l.kind == "call" and _mentions(l.value, "min_trap_dist")]
+        for l in reg:
+            _keep_tests(l.value)
+    if n_keep == 0:
+        raise AnalysisError("anchor: generate_trap_coordinates no longer compares site distances with min_trap_dist")
     wal = E.fn("pulser.register.register.Register.with_automatic_layout")
     from .symutil import arg as _arg12
 
